@@ -2,6 +2,7 @@ import torch
 
 from ..domain import Domain, BoundaryDomain
 from ...spaces import Points
+from .parallelogram import BARY_ATOL
 
 
 class Triangle(Domain):
@@ -200,13 +201,15 @@ class TriangleBoundary(BoundaryDomain):
         bary_x, bary_y = self.domain._solve_lgs(points, dir_1, -dir_3)
         x_close_to_0 = self._bary_coords_close_to_0_or_1(bary_x, bary_y)
         y_close_to_0 = self._bary_coords_close_to_0_or_1(bary_y, bary_x)
-        sum_close_to_1 = torch.isclose(bary_x + bary_y, torch.tensor(1.0))
+        sum_close_to_1 = torch.isclose(
+            bary_x + bary_y, torch.tensor(1.0), atol=BARY_ATOL
+        )
         close_to_0 = torch.logical_or(x_close_to_0, y_close_to_0)
         return torch.logical_or(close_to_0, sum_close_to_1).reshape(-1, 1)
 
     def _bary_coords_close_to_0_or_1(self, bary_coord1, bary_coord2):
         between_0_1 = torch.logical_and(0 <= bary_coord2, bary_coord2 <= 1)
-        close_to_0 = torch.isclose(bary_coord1, torch.tensor(0.0))
+        close_to_0 = torch.isclose(bary_coord1, torch.tensor(0.0), atol=BARY_ATOL)
         return torch.logical_and(close_to_0, between_0_1)
 
     def sample_random_uniform(
@@ -290,7 +293,9 @@ class TriangleBoundary(BoundaryDomain):
         return torch.divide(normals, torch.linalg.norm(normals, dim=1).reshape(-1, 1))
 
     def _add_local_normal_vector(self, normals, bary_coord, normal, i):
-        close_to_i = torch.where(torch.isclose(bary_coord, torch.tensor(i)), 1.0, 0.0)
+        close_to_i = torch.where(
+            torch.isclose(bary_coord, torch.tensor(i), atol=BARY_ATOL), 1.0, 0.0
+        )
         normals += normal * close_to_i
 
     def _get_normal_direction(self, direction, device):
